@@ -675,9 +675,13 @@ def oracle_C09(inp, out):
                     expect_same = prev12 is not None
                 else:
                     prev12 = None
+                    expect_same = False
             else:
                 if op != "final":
+                    # any other operation in between (e.g. a reload) may legitimately change the
+                    # raw parts: the comparison only spans dump, refused encode(s), dump
                     prev12 = None
+                    expect_same = False
     except (IndexError, ValueError):
         return "malformed output"
     return oracle_C01(inp, out)
